@@ -70,7 +70,7 @@ CHECKS['C03'] = {
     'unproved': ['evaluate arms FunctionCall (all functions), TypeConversion, Aggregate', 'parser_tree_converter lowering, projection naming'],
 }
 CHECKS['C09'] = {
-    'verus_units': ['eval', 'follow', 'select', 'engine', 'extract'],
+    'verus_units': ['eval', 'follow', 'select', 'engine', 'extract', 'parser', 'executor'],
     'only_safety': True,
     'clause_prefixes': ['c09'],
     'technique': 'contract-based deductive verification (Verus): absence of arithmetic overflow, division by zero, failed callee preconditions (unwrap, indexing, unreachable!) in every extracted function',
@@ -95,7 +95,7 @@ CHECKS['C08'] = {
 }
 
 CHECKS['C07'] = {
-    'verus_units': ['engine'],
+    'verus_units': ['engine', 'executor'],
     'clause_prefixes': ['c07', 'out.'],
     'technique': 'contract-based deductive verification (Verus): ExecutionEngine::update_limit / reached_limit / execute extracted from /repo; prefix lemma over the update_limit contract',
     'claim': 'Proof for all outputs, limits and row counters that update_limit keeps exactly the prefix of rows the LIMIT still allows, counts every kept row (NULL-only rows included), and raises reached_limit exactly when the count reaches n (at once for n = 0 via reached_limit()); that execute applies it to every SELECT line and truncates the final aggregate table to the first n groups; lemma: over any sequence of calls the emitted rows are the first n rows of the unlimited output. The reader loops that must stop consuming input are covered by the executor unit (C12) where claimed.',
@@ -149,6 +149,60 @@ CHECKS['C02'] = {
     'explanation': 'json_walk is the recursive specification of the path; the extracted get_value is proved equal to it with decreases self.',
     'trusted': COMMON_TRUST + ['serde_json::Value accessors as specified stand-ins'],
     'unproved': ['ValueType::convert_from_json Array arm', 'JsonAccess::from_linear', 'serde_json::from_str'],
+}
+
+CHECKS['C13'] = {
+    'verus_units': ['parser'],
+    'clause_prefixes': ['c13'],
+    'technique': 'contract-based deductive verification (Verus): BinaryOperators::new / get, Parser::get_token_precedence and Parser::parse_unary_operator extracted from /repo; the precedence numbers are read from the source on every run, the functions are proved to use exactly them, and a lemma proves that the numbers realise the standard SQL chain',
+    'claim': 'Proof that the precedence table the parser consults (symbolic operators, IS/IN/AND/OR keywords, ::, [ ]) and the operand levels of prefix NOT and unary minus realise OR < AND < NOT < comparisons = IS = IN < + - < * / < unary minus <= :: = [ ] <= qualified names, and that get_token_precedence / parse_unary_operator use exactly these numbers. NOT covered: that precedence climbing (parse_binary_operator_rhs) turns a correct table into the reference grouping, the tokenizer, and one-element IN lists - these were repaired and are demonstrated by replays only.',
+    'note': 'Trusted: HashMap<Operator, BinaryOperator> as a finite map (VOpMap), derived Token equality, parse_binary_operator_rhs / parse_primary_expression as stand-ins that only record the minimum precedence they are called with. A renumbering of the levels that keeps the order verifies; a change of the order fails the lemma.',
+    'level': 'proof',
+    'explanation': 'Table-level proof (DESIGN C13): self-generated conditions - constants P_* are cut from the source text, the extracted functions must return them, lemma_precedence_chain relates them as the property demands.',
+    'trusted': COMMON_TRUST + ['precedence climbing itself (parse_binary_operator_rhs) is not under contract'],
+    'unproved': ['Parser::parse_binary_operator_rhs', 'tokenizer operator fusion', 'parenthesised tuple / one-element IN handling'],
+}
+CHECKS['C14'] = {
+    'verus_units': ['parser'],
+    'clause_prefixes': ['c14'],
+    'kani': {
+        'sets': ['parser_bounded'],
+        'quick': ['extract_near_no_panic'],
+        'thorough': ['extract_near_no_panic'],
+        'bounded': {'extract_near_no_panic': 'one line of <= 4 characters over {a, space}, column <= 6, unwind 7'},
+        'timeout': 900,
+        'assumptions': ['bounded stand-in, not a proof: TokenLocation::extract_near is string code outside Verus'],
+    },
+    'technique': 'contract-based deductive verification (Verus) of the parser\'s token cursor (Parser::new/next/current/current_location/create_error/expect_token/expect_and_consume_token, ParserError::new) extracted from /repo; bounded Kani harness for TokenLocation::extract_near',
+    'claim': 'Proof (cursor kernel only) that once the first next() succeeded the cursor stays inside the token vector, next() at the end is an error and not a step, current()/current_location() never index out of bounds and every error created carries the location of a real token. "Any text yields a statement or a located error" for the whole tokenizer and recursive-descent parser is NOT decided. extract_near is checked only by a bounded Kani harness (labelled bounded, not counted).',
+    'note': 'Trusted: tokenize() always appends Token::End (precondition tokens.len() >= 1), Vec length <= isize::MAX. Unproved: tokenizer, all parse_* functions except parse_unary_operator, parser_tree_converter (transform_call_aggregate), TableDefinition::new; the panics found there (extract_near underflow, empty JSON path, string_agg arity) were repaired and are demonstrated by replays.',
+    'level': 'proof',
+    'explanation': 'Cursor safety is the invariant 0 <= index < tokens.len() established by next() and required by every accessor.',
+    'trusted': COMMON_TRUST,
+    'unproved': ['tokenize', 'Parser::parse_* (grammar)', 'parser_tree_converter', 'TokenLocation::extract_near (bounded Kani only)'],
+}
+
+CHECKS['C12'] = {
+    'verus_units': ['executor'],
+    'clause_prefixes': ['c12'],
+    'technique': 'contract-based deductive verification (Verus): FileExecutor::execute (both nested reader loops, labelled break) extracted from /repo and proved equal to a recursive run function sem_run; the property is proved as lemmas about sem_run',
+    'claim': 'Proof for all files (item sequences), engines and flag values that the lines handed to the query by FileExecutor::execute are exactly sem_run(history, files, flag): files in command-line order, lines in file order, each at most once, stopping only at an unreadable line (reported as Err), a failing query (Err), a reached LIMIT or an interrupt; lemma: when nothing stops the run, every line of every file reaches the query exactly once in order, so several files equal their concatenation; statistics.total_lines counts exactly those lines.',
+    'note': 'Trusted: BufRead::lines() yields the items of the file in order (stand-in VReader::lines, materialised: rule E4), std::mem::take, the engine as a state machine over its line history, statistics counters do not overflow within a run (vx_count_* stand-ins). The byte-level splitting of a file into lines (final line without newline, CRLF) is std::io::Lines, not verified. The loader of the joined file (JoinedTableData::execute) has the same shape and is not under contract.',
+    'level': 'proof',
+    'explanation': 'code == sem_run is proved against the extracted text with loop invariants in forward style; lemma_every_line_of_every_file, lemma_interrupted_run_consumes_nothing and lemma_limit_reached_consumes_nothing are pure spec-level inductions.',
+    'trusted': COMMON_TRUST + ['std::io::BufRead::lines line splitting'],
+    'unproved': ['JoinedTableData::execute reader loop', 'main.rs collection of input files'],
+}
+CHECKS['C19'] = {
+    'verus_units': ['executor'],
+    'clause_prefixes': ['c19'],
+    'technique': 'contract-based deductive verification (Verus) of FileExecutor::execute with the running flag as a specified stand-in; degenerate schedules only',
+    'claim': 'Proof for the two degenerate schedules (flag cleared before the run / never cleared): with the flag cleared no further line reaches the query, no error is reported, and an aggregate statement still prints the table of exactly the lines consumed (one result call); with the flag set the run is the uninterrupted one. A flip BETWEEN two loads is not modelled (load(&self) cannot change in Verus without atomics in the source), so "every point at which the flag can be cleared" is not decided.',
+    'note': 'Trusted: AtomicBool::load returns the flag value; the flag is constant during the call (interior mutability is invisible). This catches a check that is removed, inverted or moved behind the consuming call. JoinedTableData::execute (every 10th line) and FollowFileExecutor::execute are not under contract.',
+    'level': 'proof',
+    'explanation': 'Rides on the executor unit; lemma_interrupted_run_consumes_nothing.',
+    'trusted': COMMON_TRUST + ['flag constant during one call'],
+    'unproved': ['interleavings of the ctrl-c handler with the loop', 'JoinedTableData::execute', 'FollowFileExecutor::execute'],
 }
 
 NOT_APPLICABLE = {
